@@ -337,7 +337,9 @@ def register(reg):
         root = os.path.dirname(os.path.dirname(os.path.abspath(__file__)))
         try:
             os.makedirs(os.path.join(root, "evidence"), exist_ok=True)
-            with open(os.path.join(root, "evidence", "C09_corpus.json"), "w") as f:
+            evdir = os.environ.get("PYVC_EVIDENCE_DIR") or os.path.join(root, "evidence")  # seeded-change / side runs write elsewhere
+            os.makedirs(evdir, exist_ok=True)
+            with open(os.path.join(evdir, "C09_corpus.json"), "w") as f:
                 json.dump(dict(tier=tier, seed=seed, files=len(chosen), total_bytes=sum(b for _, _, b in chosen), excluded=excluded, outcomes={k: sum(1 for r in results.values() if r["outcome"] == k) for k in ("same", "different", "rejected", "internal", "timeout")}, file_list=[[g, f, b] for g, f, b in chosen]), f, indent=0)
         except OSError:
             pass
